@@ -141,6 +141,22 @@ example :
     let s := runUntilCrash exFmt t 2 (some 3) (fun _ => 0) (init exOrig 0o644 none 0o022)
     s.path = some ⟨exOrig, 0o644⟩ ∧ s.tmp = some ⟨[0x78, 0x20, 0x3a], 0o600⟩ := by decide
 
+/-- the `stale` parameter matters: a fixed temp name opened without `O_TRUNC`/`O_EXCL` over a
+longer leftover produces neither the original nor the formatted content (and is not `SafeSeq`) -/
+example :
+    let t : List Ev := [.ok (.openW .tmp true false false 0o600), .ok .write, .ok .close,
+                        .ok (.rename .tmp .path)]
+    (runEvs [0x46] t (fun _ => 0) (init [0x4f] 0o644 (some ⟨[1, 2, 3], 0o600⟩) 0o022)).path
+      = some ⟨[0x46, 2, 3], 0o600⟩ ∧ SafeSeq t = false := by decide
+
+/-- today's program also keeps the mode at every crash point (`ModeSafeSeq`, stronger than C26;
+stated on a literal copy of the main trace: a reordering that chmods after the rename is not
+a violation of the property as written and must not break this file) -/
+example : ModeSafeSeq [.ok .stat, .ok (.createTemp 0o600), .ok .write, .ok (.chmodFd .origPerm),
+                       .ok .close, .ok (.rename .tmp .path)] = true := by decide
+example : ModeSafeSeq [.ok .stat, .ok (.createTemp 0o600), .ok .write, .ok .close,
+                       .ok (.rename .tmp .path), .ok (.chmodName .path .origPerm)] = false := by decide
+
 /-- the program has error paths (more than one trace) and `SafeSeq` is not trivially true -/
 example : 1 < (flat prog false).length := by decide
 example : SafeSeq [.ok (.openW .path true false true 0o644), .ok .write, .ok .close] = false := by decide
